@@ -308,6 +308,25 @@ var opTable = []opDef{
 		h.t.Resolve()
 		return fmt.Sprintf("Resolve(seed %d)", s), nil, true
 	}},
+	{"ResolveNamedInternalNodes", 2, func(h *hist) (string, error, bool) {
+		// every named inner node (the root included) becomes a new zero-length tip of that name under the node
+		named := 0
+		for _, n := range h.t.Nodes() {
+			if !n.Tip() && n.Name() != "" {
+				named++
+			}
+		}
+		if named == 0 {
+			// give two inner nodes (the root first) a fresh name so that the operation has something to do
+			in := innerNodes(h.t)
+			h.t.Root().SetName(h.freshName())
+			if len(in) > 1 {
+				in[h.r.Intn(len(in))].SetName(h.freshName())
+			}
+		}
+		h.t.ResolveNamedInternalNodes()
+		return "ResolveNamedInternalNodes()", nil, true
+	}},
 	{"RotateInternalNodes", 2, func(h *hist) (string, error, bool) {
 		rand.Seed(h.r.Int63())
 		h.t.RotateInternalNodes()
